@@ -45,6 +45,9 @@ def baseline_keys(prop, repo):
 
 
 def apply_edits(root, edits):
+    if isinstance(edits, dict) and "patch" in edits:
+        r = subprocess.run(["patch", "-p1", "-s", "--no-backup-if-mismatch", "-i", edits["patch"]], cwd=root, stdout=subprocess.PIPE, stderr=subprocess.STDOUT, text=True)
+        return None if r.returncode == 0 else "edit does not apply: patch %s: %s" % (edits["patch"], r.stdout[:200])
     for ed in edits:
         fn, old, new = ed[0], ed[1], ed[2]
         cnt = ed[3] if len(ed) > 3 else 1
@@ -125,9 +128,21 @@ def evaluate(prop, m, repo, base):
     return res
 
 
-def mutants_for(prop):
+def seeded_for(prop):
+    """the independently written seeded changes filed under this property, as `break` variants (any new violation counts)"""
+    out = []
+    sd = os.path.join(VERIF, "seeded")
+    if os.path.isdir(sd):
+        for d in sorted(os.listdir(sd)):
+            mp = os.path.join(sd, d, "meta.json")
+            if os.path.exists(mp) and json.load(open(mp)).get("property") == prop:
+                out.append({"id": "seeded:" + d, "kind": "break", "edits": {"patch": os.path.join(sd, d, "patch.diff")}, "expect": []})
+    return out
+
+
+def mutants_for(prop, with_seeded=False):
     mod = importlib.import_module("selfcheck." + prop.lower())
-    return mod.MUTANTS
+    return list(mod.MUTANTS) + (seeded_for(prop) if with_seeded else [])
 
 
 def main():
@@ -146,7 +161,7 @@ def main():
         return 2
     for prop in props:
         try:
-            ms = mutants_for(prop)
+            ms = mutants_for(prop, with_seeded=True)
         except ModuleNotFoundError:
             continue
         if args.only:
